@@ -12,7 +12,7 @@ RULE = ('each case fixes a group (G1/G2), a relation between A and B (independen
         'Also points given only by coordinates (G1: arbitrary curve points, the cofactor being 1; G2: subgroup points). '
         'Pairs of distinct points sharing their y-coordinate ((beta*x, y), beta^3 = 1) are a required class. distinct = distinct (group, op, operand triples); non-trivial = neither operand is the identity')
 
-RELATIONS = ['indep', 'equal', 'samereg', 'opposite', 'idA', 'idB', 'outside', 'same-y', 'h-directed']
+RELATIONS = ['indep', 'equal', 'samereg', 'opposite', 'idA', 'idB', 'outside', 'same-y', 'h-directed', 'coord-directed']
 # a primitive cube root of unity of Fq: (beta*x, y) is another curve point with the SAME y (the adder's r = 0, h != 0 case)
 BETA = next(b for b in (pow(g, (q - 1) // 3, q) for g in range(2, 50)) if b != 1)
 
@@ -38,7 +38,7 @@ def required(tier):
     req = []
     for which in (1, 2):
         for rel in RELATIONS:
-            if which == 2 and rel == 'h-directed':
+            if which == 2 and rel in ('h-directed', 'coord-directed'):
                 continue        # the x-difference construction yields points outside the subgroup: G1 only
             for ra in gen.REPS:
                 for rb in gen.REPS:
@@ -72,9 +72,22 @@ def run(ctx, spec):
         # G1 has cofactor 1, so every curve point is a group element; for G2 the property speaks of the order-r subgroup only
         return points.rand_curve_point(rng, 1) if which == 1 else rm.gmul(2, rng.randrange(1, r))
 
-    if rel == 'h-directed' and which == 2:
+    if rel in ('h-directed', 'coord-directed') and which == 2:
         rel = 'outside'
-    if rel == 'h-directed':
+    if rel == 'coord-directed':
+        # a point whose x^2, y^2 or y^4 (the intermediate values of doubling) sits where 2x / 3x / 8x crosses a multiple of q or 2^256;
+        # B is the same point (so that A+B doubles), C independent
+        got = points.directed_g1_point(rng)
+        PA = got[0] if got else points.rand_curve_point(rng, 1)
+        PB = PA
+        PC = points.rand_curve_point(rng, 1)
+        A, B, C = arb(PA, ra), arb(PB, rb), arb(PC, rng.choice(gen.REPS))
+        rel_done = True
+    else:
+        rel_done = False
+    if rel_done:
+        pass
+    elif rel == 'h-directed':
         # two curve points whose x-difference h (squared by the adder with the dedicated squaring routine) is aimed at that routine:
         # Montgomery quotient digits 0 / 2^64-1 or an unreduced square accumulator on a boundary (G2: h real, so h^2 hits Fq squaring/mul)
         PA = PB = None
